@@ -239,6 +239,16 @@ h("ki5d_match_guard_dispatch", SYM, SP, ["C02", "C03", "C04"], kernel="KI5d", ex
 h("ki5d_match_guard_friends", SYM, SP, ["C02", "C03", "C04"], kernel="KI5d", expect_s=100, timeout=1200, weight=2, mem_gb=16,
   unwindset=[("State::<'_>::len_and_friends", None, 5), ("BitReader::<'_>::need_bits", None, 6)],
   functions=["State::len_and_friends (mode Match)"], bounds="same as ki5d_match_guard_dispatch, second copy of the code", assumptions=GUARD_ASSUME)
+FS_ARRAYS = ["--max-field-sensitivity-array-size", "2048"]
+h("ki5d_dist_long_code_dispatch", SYM, SP, ["C04", "C03", "C02"], kernel="KI5d", expect_s=200, timeout=1800, weight=2, mem_gb=16, cbmc_args=FS_ARRAYS,
+  unwindset=DISPATCH_US(3, inner=3) + [("inftrees::inflate_table", None, 520), ("ki5_symbols::install_long_dist_code", None, 12)],
+  functions=["State::dispatch (mode Dist: second-level table lookup, DistExt)", "inftrees::inflate_table (concrete lengths)"],
+  bounds="dynamic distance code with lengths 1..=9, 10, 10 (second-level table); the nine root bits of a ten-bit code in the register, no input (must suspend intact); then one symbolic byte: tenth bit + extra bits",
+  assumptions=["Writer::copy_match / extend_from_window -> unreachable (writer full)", "CBMC --max-field-sensitivity-array-size 2048"])
+h("ki5d_dist_long_code_friends", SYM, SP, ["C04", "C03", "C02"], kernel="KI5d", expect_s=200, timeout=1800, weight=2, mem_gb=16, cbmc_args=FS_ARRAYS,
+  unwindset=[("State::<'_>::len_and_friends", None, 4), ("BitReader::<'_>::need_bits", None, 6), ("inftrees::inflate_table", None, 520), ("ki5_symbols::install_long_dist_code", None, 12)],
+  functions=["State::len_and_friends (mode Dist: second-level table lookup)"], bounds="same as ki5d_dist_long_code_dispatch, other copy of the code",
+  assumptions=["Writer::copy_match / extend_from_window -> unreachable (writer full)", "CBMC --max-field-sensitivity-array-size 2048"])
 h("ki5d_fixed_tables_are_rfc", SYM, SP, ["C03", "C01", "C05"], kernel="KD2/KI5d", expect_s=5, timeout=300,
   functions=["inffixed_tbl::LENFIX", "inffixed_tbl::DISTFIX"], bounds="all 512 + 32 table indices (exhaustive, decided symbolically)")
 
